@@ -896,3 +896,73 @@ class PositionOrder(Monitor):
                      "after %r: %s rows %s,%s requested %r,%r got %r,%r" % (
                          ctx.label, tid, ra, rb, qa, qb, postr[ra], postr[rb]))
     ctx.extra['position_columns_checked'] = n
+
+
+# ------------------------------------------------------------------------------------------------
+class Idents(Monitor):
+  """
+  C21 (engine part): whatever names a bundle asked for, every table id and column id the document
+  ends up with is a valid identifier of its kind, and ids are unique ignoring case (table ids in
+  the document, column ids within their table).  `may_fail`: labels (numbers stripped) of
+  requests the engine is entitled to refuse; any other rejected naming request is reported.
+  """
+  name = 'idents'
+
+  def __init__(self, may_fail=()):
+    self.may_fail = set(may_fail)
+
+  def check(self, ctx):
+    import keyword
+    if ctx.exc is not None:
+      if ctx.pre_dump != ctx.post_dump:
+        return      # C04's business
+      lab = R.strip_numbers(ctx.label)
+      if lab not in self.may_fail:
+        yield (vkey('C21', 'naming-request-rejected', ctx, extra=type(ctx.exc).__name__),
+               "bundle %r was rejected: %s" % (ctx.label, H.exc_text(ctx.exc)))
+      return
+    d = ctx.post_dump
+    tables = d['_grist_Tables']['rows']
+    cols = d['_grist_Tables_column']['rows']
+
+    def bad_ident(x, table):
+      if not isinstance(x, str) or not x.isidentifier() or not x.isascii():
+        return 'not an ASCII identifier'
+      if keyword.iskeyword(x):
+        return 'a Python keyword'
+      if x[0] == '_' or x[0].isdigit():
+        return 'starts with an underscore or digit'
+      if table and not x[0].isupper():
+        return 'a table id not starting with an uppercase letter'
+      return None
+    seen = {}
+    for r, t in sorted(tables.items()):
+      tid = t['tableId']
+      why = bad_ident(tid, True)
+      if why:
+        yield (vkey('C21', 'invalid-table-id', ctx), "after %r: table id %r is %s" % (ctx.label, tid, why))
+      low = tid.lower() if isinstance(tid, str) else tid
+      if low in seen:
+        yield (vkey('C21', 'duplicate-table-id', ctx),
+               "after %r: table ids %r and %r differ at most in case" % (ctx.label, seen[low], tid))
+      seen[low] = tid
+      if tid not in d:
+        yield (vkey('C21', 'table-id-not-in-engine', ctx), "after %r: no table %r in the engine" % (ctx.label, tid))
+    per = {}
+    for r, c in sorted(cols.items()):
+      t = tables.get(c['parentId'])
+      if t is None:
+        continue
+      cid = c['colId']
+      if cid in ('manualSort',) or (isinstance(cid, str) and cid.startswith('gristHelper_')):
+        pass
+      why = bad_ident(cid, False)
+      if why:
+        yield (vkey('C21', 'invalid-col-id', ctx), "after %r: column id %r of %s is %s" % (
+            ctx.label, cid, t['tableId'], why))
+      low = cid.lower() if isinstance(cid, str) else cid
+      s = per.setdefault(c['parentId'], {})
+      if low in s:
+        yield (vkey('C21', 'duplicate-col-id', ctx),
+               "after %r: columns %r and %r of %s differ at most in case" % (ctx.label, s[low], cid, t['tableId']))
+      s[low] = cid
